@@ -526,6 +526,43 @@ def confirm_failure(pid, mod, case, rundir, prof, failing, tries=3):
     return None
 
 
+def confirm_with_history(pid, mod, all_cases, case, rundir, prof, failing):
+    """A failure that does not show on the case alone may depend on what the implementation did BEFORE it in the same
+    process (state carried from call to call: a cache, a reused buffer, a thread-local).  Re-runs the case behind the
+    cases that preceded it in the main run -- the last 1, 2, 4, ... of them -- and, when the failure shows again,
+    halves that history while it still does.  Returns (history, result) or None."""
+    try:
+        idx = all_cases.index(case)
+    except ValueError:
+        return None
+    prefix = all_cases[:idx]
+    if not prefix:
+        return None
+    k, best = 1, None
+    while True:
+        hist = prefix[max(0, len(prefix) - k):]
+        rr = run_both(pid, mod, hist + [case], rundir, tag="final", profile=prof)[-1]
+        if failing(rr):
+            best = (hist, rr)
+            break
+        if k >= len(prefix):
+            break
+        k *= 2
+    if best is None:
+        return None
+    hist, rr = best
+    while len(hist) > 1:
+        half = hist[len(hist) // 2:]
+        r2 = run_both(pid, mod, half + [case], rundir, tag="final", profile=prof)[-1]
+        if not failing(r2):
+            break
+        hist, rr = half, r2
+    r3 = run_both(pid, mod, hist + [case], rundir, tag="final", profile=prof)[-1]
+    if not failing(r3):
+        return None
+    return hist, r3
+
+
 UNREPRODUCED = []
 
 
@@ -568,7 +605,10 @@ def main_check(pid, argv):
             print(doc.get("detail", doc.get("broken_obligations", "")))
             return 1
         try:
-            res = run_both(pid, mod, [case], rundir, tag="replay", profile=doc.get("profile", "release"))
+            hist = doc.get("history") or []
+            if hist:
+                print("history:  %d case(s) run before it in the same process" % len(hist))
+            res = run_both(pid, mod, hist + [case], rundir, tag="replay", profile=doc.get("profile", "release"))[-1:]
         except CorrBroken as e:
             print("case:    ", case)
             print("impl:     the implementation side fails on this case:", e)
@@ -652,12 +692,21 @@ def main_check(pid, argv):
                 continue
             reported.add(small)
             rr = confirm_failure(pid, mod, small, rundir, prof, failing) or confirm_failure(pid, mod, c, rundir, prof, failing)
+            history = None
             if rr is None:
-                UNREPRODUCED.append(dict(case=c[:2000], first_verdict=v, note="failed once in the main run, passed 6 re-runs"))
+                hr = confirm_with_history(pid, mod, cases, c, rundir, prof, failing)
+                if hr is not None:
+                    history, rr = hr
+            if rr is None:
+                UNREPRODUCED.append(dict(case=c[:2000], first_verdict=v, note="failed once in the main run, passed 6 re-runs alone and the re-runs behind its predecessors"))
                 continue
             n += 1
-            path = write_replay(pid, rundir, n, "oracle", rr[0], rr[1], rr[2], rr[3],
-                                dict(profile=prof, original_case=c, failures_of_this_class=sum(1 for x in oracle_fail if x[4] == ver)))
+            extra_doc = dict(profile=prof, original_case=c, failures_of_this_class=sum(1 for x in oracle_fail if x[4] == ver))
+            if history is not None:
+                extra_doc["history"] = history
+                extra_doc["note"] = ("the case passes when it runs alone in a fresh process and fails behind these %d case(s) in the same "
+                                     "process: the outcome depends on what the implementation did before" % len(history))
+            path = write_replay(pid, rundir, n, "oracle", rr[0], rr[1], rr[2], rr[3], extra_doc)
             violations.append(("oracle", path, ""))
     elif corr_fail:
         # correspondence broke but every oracle held: aimed search around the differing cases
@@ -695,13 +744,20 @@ def main_check(pid, argv):
                 return not corr_equal(r[1], r[2])
             small = shrink_case(pid, mod, c, rundir, failing)
             rr = confirm_failure(pid, mod, small, rundir, prof, failing) or confirm_failure(pid, mod, c, rundir, prof, failing)
+            history = None
+            if rr is None:
+                hr = confirm_with_history(pid, mod, cases, c, rundir, prof, failing)
+                if hr is not None:
+                    history, rr = hr
             if rr is None:
                 UNREPRODUCED.append(dict(case=c[:2000], first_verdict="correspondence difference", note="differed once in the main run, agreed in 6 re-runs"))
                 n -= 1
             else:
-                path = write_replay(pid, rundir, n, "correspondence", rr[0], rr[1], rr[2], rr[3],
-                                    dict(profile=prof, broken="Corr_%s: model observation differs from implementation observation" % pid,
-                                         differing_cases=len(corr_fail), searched_extra_cases=len(extra)))
+                extra_doc = dict(profile=prof, broken="Corr_%s: model observation differs from implementation observation" % pid,
+                                 differing_cases=len(corr_fail), searched_extra_cases=len(extra))
+                if history is not None:
+                    extra_doc["history"] = history
+                path = write_replay(pid, rundir, n, "correspondence", rr[0], rr[1], rr[2], rr[3], extra_doc)
                 violations.append(("correspondence", path, "no-failing-input-found"))
     if (broken or DEGRADED) and not violations:
         # the tie between model and code no longer checks: the harness does not build against this
@@ -789,7 +845,8 @@ def main_check(pid, argv):
         try:
             doc = json.load(open(path))
             print("  replay %s: %s | case: %s" % (os.path.basename(path), str(doc.get("oracle_verdict") or doc.get("broken") or doc.get("broken_obligations"))[:200],
-                                                  str(doc.get("case"))[:400]))
+                                                  str(doc.get("case"))[:400]) +
+                  ((" | behind %d earlier case(s) in the same process (history in the replay file)" % len(doc["history"])) if doc.get("history") else ""))
         except Exception:
             pass
         print(("VIOLATION property=%s replay=%s %s" % (pid, path, note)).rstrip())
